@@ -170,7 +170,7 @@ class Program:
             if prev is None:
                 out.append("first")
             elif nxt is None:
-                out.append("none" if prev.lex == "HTML" else "last")
+                out.append("none" if prev.lex == "HTML" else ("payload" if "P" in prev.glue else "last"))
             elif prev.lex == "HTML":
                 out.append("open")                     # back to PHP: an open tag comes first
             elif "R" in prev.glue or "L" in nxt.glue:
@@ -194,7 +194,10 @@ class Program:
             if gk[i] == "open":
                 pieces.append(("T_OPEN_TAG", b"<?php"))
                 pieces.append(("T_WHITESPACE", b"\n"))
-            rp = recipes(i, "free" if gk[i] == "open" else gk[i]) if gk[i] != "none" else []
+            rp = recipes(i, "free" if gk[i] == "open" else gk[i]) if gk[i] not in ("none", "payload") else []
+            if gk[i] == "payload":
+                # raw data after __halt_compiler();  - not trivia: the same bytes under every layout; they would parse as PHP
+                pieces.append(("T_HALT_COMPILER", HALT_PAYLOAD))
             if i > 0 and "N" in self.toks[i - 1].glue and gk[i] != "none":
                 # PHP < 7.3: the ';' after a closing heredoc label must be followed by a line break (LF or CRLF); a
                 # recipe that starts with one provides it, otherwise one is put in front
@@ -314,6 +317,8 @@ def fuses(x, y):
         return False
     return True
 
+
+HALT_PAYLOAD = b" raw\x00data <?php $zz = 1; ?>\n/* not a comment */ 'bin\r\n"
 
 # ---------------------------------------------------------------------------- trivia recipes
 
